@@ -81,6 +81,14 @@ def scenario_tags(sc):
         t.add("dup_column_labels")
     if fr["columns"] and not fr["columns"][0]["values"]:
         t.add("empty_frame")
+    ixs = fr.get("index")
+    if ixs:
+        if "multi" in ixs:
+            tuples = list(zip(*[lv["values"] for lv in ixs["multi"]]))
+        else:
+            tuples = list(ixs["values"])
+        if len(set(map(str, tuples))) != len(tuples):
+            t.add("dup_index_labels")
     cols = _cols(spec)
     if _uses_drop(spec):
         t.add("drop_invalid_rows")
@@ -275,6 +283,8 @@ def judge_fault_case(scn: Scenario, out, st, lazy, out0):
             continue        # documented to be re-raised
         if not lazy and out0.raised:
             continue        # eager validation surfaces the first error only; another constraint already fails fault-free
+        if kind in ("SchemaError", "SchemaErrors") and _uses_drop(scn.spec) and scn.backend == "pandas":
+            continue        # nested SchemaError under drop_invalid_rows: its row-level failure cases are dropped, not reported
         reported = _reported_errors(e)
         if not any(site in world.site_of_check(getattr(se, "check", None), scn.subject) for se in reported):
             res.append((f"unattributed|{role}|{scn.backend}|{scn.spec['kind']}|lazy={int(lazy)}|drop={int(_uses_drop(scn.spec))}",
